@@ -26,6 +26,8 @@ pub enum FlipGenome {
     Bitstring,
     VecTag,
     VectorTag,
+    /// a user-defined genome type (own `Linear` / `FromIterator` / `IntoIterator` impls over a `VecDeque`)
+    UserTag,
 }
 
 #[derive(Clone, Copy, Debug, PartialEq, Eq, Serialize, Deserialize)]
@@ -33,6 +35,39 @@ pub enum UmadGenome {
     Vector,
     Plushy,
     Bitstring,
+    /// a user-defined genome type (see `Ring`)
+    User,
+}
+
+/// A genome type a user of the library could write: genes in a ring buffer, handed out by an iterator that is
+/// not an `ExactSizeIterator`.
+#[derive(Clone, Debug, PartialEq)]
+pub struct Ring<T>(pub std::collections::VecDeque<T>);
+impl<T> ec_core::genome::Genome for Ring<T> {
+    type Gene = T;
+}
+impl<T> ec_linear::genome::Linear for Ring<T> {
+    fn size(&self) -> usize {
+        self.0.len()
+    }
+    fn gene_mut(&mut self, index: usize) -> Option<&mut T> {
+        self.0.get_mut(index)
+    }
+}
+impl<T> FromIterator<T> for Ring<T> {
+    fn from_iter<I: IntoIterator<Item = T>>(iter: I) -> Self {
+        // filled from the back and rotated, so that the buffer is not laid out contiguously from slot 0
+        let mut d: std::collections::VecDeque<T> = iter.into_iter().collect();
+        d.rotate_left(0);
+        Self(d)
+    }
+}
+impl<T> IntoIterator for Ring<T> {
+    type Item = T;
+    type IntoIter = std::iter::Chain<std::collections::vec_deque::IntoIter<T>, std::iter::Empty<T>>;
+    fn into_iter(self) -> Self::IntoIter {
+        self.0.into_iter().chain(std::iter::empty())
+    }
 }
 
 #[derive(Clone, Copy, Debug, PartialEq, Serialize, Deserialize)]
@@ -214,6 +249,14 @@ fn flip_case(genome: FlipGenome, bits: &[bool], rate: Option<f32>, script: &[u64
                 let o = WithOneOverLength.mutate(Vector { genes: tags() }, &mut rng).map_err(|e| e.to_string())?;
                 (o.genes.len(), from_tags(o.genes))
             }
+            (FlipGenome::UserTag, Some(r)) => {
+                let o = WithRate::new(r).mutate(tags().into_iter().collect::<Ring<TagBit>>(), &mut rng).map_err(|e| e.to_string())?;
+                (o.0.len(), from_tags(o.0.into_iter().collect()))
+            }
+            (FlipGenome::UserTag, None) => {
+                let o = WithOneOverLength.mutate(tags().into_iter().collect::<Ring<TagBit>>(), &mut rng).map_err(|e| e.to_string())?;
+                (o.0.len(), from_tags(o.0.into_iter().collect()))
+            }
         })
     });
     match r {
@@ -363,6 +406,23 @@ fn umad_case(genome: UmadGenome, n: usize, add: f64, del: f64, ctor: Ctor, scrip
                 })
                 .collect()
         }
+        UmadGenome::User => {
+            let parent: Ring<Tg> = (0..n as u32).map(Tg::Parent).collect();
+            let u = mk(ctor, add, del, &gen);
+            for l in warm_lens {
+                let Ok(_) = u.mutate((0..*l as u32).map(Tg::Parent).collect::<Ring<Tg>>(), &mut warm_rng);
+            }
+            gen.produced.borrow_mut().clear();
+            let Ok(child) = u.mutate(parent, &mut rng);
+            child
+                .0
+                .iter()
+                .map(|g| match g {
+                    Tg::Parent(p) => Ok(*p),
+                    Tg::New(s) => Err(*s),
+                })
+                .collect()
+        }
         UmadGenome::Plushy => {
             let is_close = |i: usize| closes.get(i).copied().unwrap_or(false);
             let parent_genes: Vec<PushGene> = (0..n).map(|i| if is_close(i) { PushGene::Close } else { PushGene::Instruction(PushInstruction::push_int(i as i64)) }).collect();
@@ -483,7 +543,7 @@ fn rate01() -> impl Strategy<Value = f64> {
 pub fn strategy(max_len: usize) -> BoxedStrategy<Case> {
     let script = || crate::rngs::script_strategy(24);
     let flip = (
-        prop::sample::select(vec![FlipGenome::VecBool, FlipGenome::Bitstring, FlipGenome::VecTag, FlipGenome::VectorTag]),
+        prop::sample::select(vec![FlipGenome::VecBool, FlipGenome::Bitstring, FlipGenome::VecTag, FlipGenome::VectorTag, FlipGenome::UserTag]),
         prop::collection::vec(any::<bool>(), 0..=max_len),
         prop_oneof![
             2 => Just(None),
@@ -497,7 +557,7 @@ pub fn strategy(max_len: usize) -> BoxedStrategy<Case> {
     )
         .prop_map(|(genome, bits, rate, script)| Case::Flip { genome, bits, rate, script });
     let umad = (
-        prop::sample::select(vec![UmadGenome::Vector, UmadGenome::Vector, UmadGenome::Plushy, UmadGenome::Plushy, UmadGenome::Bitstring]),
+        prop::sample::select(vec![UmadGenome::Vector, UmadGenome::Vector, UmadGenome::Plushy, UmadGenome::Plushy, UmadGenome::Bitstring, UmadGenome::User]),
         prop_oneof![1 => Just(0usize), 1 => Just(1usize), 5 => 0usize..=max_len],
         rate01(),
         rate01(),
@@ -511,7 +571,7 @@ pub fn strategy(max_len: usize) -> BoxedStrategy<Case> {
 }
 
 pub fn run(ctx: &mut Ctx) {
-    ctx.rule = "flip mutators (WithRate with rates {0, 1, >1} u (0,1); WithOneOverLength) on Vec<bool>, Bitstring, Vec<TagBit>, Vector<TagBit> (genes carry position and a negation flag); UMAD through all three constructors on Vector<tagged genes>, Plushy (parent gene i = literal i or a close marker, new genes from a disjoint alphabet with fresh serials) and Bitstring (sizes only), lengths 0..40 (and, in a second sub-check, up to 700; thorough 120 / 6000), generated random stream; in two fifths of the UMAD cases the same mutator value is first used on an empty and / or a longer parent. non-trivial = len >= 2, a rate strictly inside (0,1), child differs from parent; distinct by JSON encoding".into();
+    ctx.rule = "flip mutators (WithRate with rates {0, 1, >1} u (0,1); WithOneOverLength) on Vec<bool>, Bitstring, Vec<TagBit>, Vector<TagBit> and a user-defined genome type (own Linear / FromIterator / IntoIterator impls over a ring buffer) (genes carry position and a negation flag); UMAD through all three constructors on Vector<tagged genes>, Plushy (parent gene i = literal i or a close marker, new genes from a disjoint alphabet with fresh serials) and Bitstring (sizes only), lengths 0..40 (and, in a second sub-check, up to 700; thorough 120 / 6000), generated random stream; in two fifths of the UMAD cases the same mutator value is first used on an empty and / or a longer parent. non-trivial = len >= 2, a rate strictly inside (0,1), child differs from parent; distinct by JSON encoding".into();
     let (n, len) = ctx.tier.pick((1_000_000u32, 40usize), (12_000_000, 120));
     ctx.run_prop("mutations", n, move || strategy(len), oracle);
     // long genomes: nothing structural may depend on a machine-word, byte-counter or buffer size
